@@ -57,14 +57,13 @@ Fixpoint tr_dones (n : name) (t : list event) : nat :=
   end.
 
 (* ---------- the invariant ---------- *)
-Definition completed (n : name) (s : st) : nat := get n (done_nr s) + get n (done_r s).
+Definition completed (n : name) (s : st) : nat := get n (dones s).
 
 Record Inv (inprog : list name) (s : st) : Prop := {
-  inv_acct : forall n, get n (starts s) =
-                       get n (done_nr s) + get n (done_r s) + get n (fail_nr s) + get n (fail_r s) + cnt n inprog;
-  inv_once : forall n, get n (done_nr s) <= 1;
-  inv_cached : forall n, get n (done_nr s) = 1 -> lookup n (cache s) <> None;
-  inv_inprog : forall n, In n inprog -> get n (done_nr s) = 0;
+  inv_acct : forall n, get n (starts s) = get n (dones s) + get n (fails s) + cnt n inprog;
+  inv_once : forall n, get n (dones s) <= 1;
+  inv_cached : forall n, get n (dones s) = 1 -> lookup n (cache s) <> None;
+  inv_inprog : forall n, In n inprog -> get n (dones s) = 0;
   inv_res0 : forall n, completed n s = 0 -> lookup n (cache s) = None /\ forall id, ~ In (n, id) (results s);
   inv_res1 : forall n id, In (n, id) (results s) -> completed n s <= 1 -> exists a, lookup n (cache s) = Some (id, a);
   inv_linj : forall n1 n2 a, lookup n1 (loaded s) = Some a -> lookup n2 (loaded s) = Some a -> n1 = n2;
@@ -97,7 +96,7 @@ Lemma set_array_inv l a e s : Inv l s -> Inv l (set_array a e s).
 Proof. intros [Hacct Honce Hcached Hinprog Hres0 Hres1 Hlinj Hlrange Hnext Hcarr Htrs Htrd]. constructor; cbn; auto. Qed.
 Lemma note_write_inv l a w s : Inv l s -> Inv l (note_write a w s).
 Proof. intros [Hacct Honce Hcached Hinprog Hres0 Hres1 Hlinj Hlrange Hnext Hcarr Htrs Htrd]. constructor; cbn; auto. Qed.
-Lemma set_fuzzy_inv l s : Inv l s -> Inv l (set_fuzzy s).
+Lemma note_cycle_inv l n s : Inv l s -> Inv l (note_cycle n s).
 Proof. intros [Hacct Honce Hcached Hinprog Hres0 Hres1 Hlinj Hlrange Hnext Hcarr Htrs Htrd]. constructor; cbn; auto. Qed.
 Lemma note_compiled_inv l n s : Inv l s -> Inv l (note_compiled n s).
 Proof. intros [Hacct Honce Hcached Hinprog Hres0 Hres1 Hlinj Hlrange Hnext Hcarr Htrs Htrd]. constructor; cbn; auto. Qed.
@@ -135,7 +134,7 @@ Lemma load_fresh_inv l n s : Inv l s -> lookup n (loaded s) = None ->
   Inv l (load_fresh n s) /\ lookup n (loaded (load_fresh n s)) = Some (next_arr s) /\ ext s (load_fresh n s).
 Proof.
   intros [Hacct Honce Hcached Hinprog Hres0 Hres1 Hlinj Hlrange Hnext Hcarr Htrs Htrd] Hn. split; [|split].
-  - constructor; cbn [load_fresh cache compiled loaded arrays next_arr next_mod trace starts done_nr done_r fail_nr fail_r results completed]; auto.
+  - constructor; cbn [load_fresh cache compiled loaded arrays next_arr next_mod trace starts dones fails cycles results completed]; auto.
     + intros n1 n2 a. cbn [lookup].
       destruct (name_eqb n1 n) eqn:E1; destruct (name_eqb n2 n) eqn:E2.
       * apply name_eqb_eq in E1, E2. congruence.
@@ -153,13 +152,13 @@ Proof.
     apply name_eqb_eq in E. subst m. congruence.
 Qed.
 
-Lemma begin_run_inv l n re d s : Inv l s -> lookup n (cache s) = None -> Inv (n :: l) (begin_run n re d s).
+Lemma begin_run_inv l n d s : Inv l s -> lookup n (cache s) = None -> Inv (n :: l) (begin_run n d s).
 Proof.
   intros [Hacct Honce Hcached Hinprog Hres0 Hres1 Hlinj Hlrange Hnext Hcarr Htrs Htrd] Hc.
-  assert (Hz : get n (done_nr s) = 0).
-  { pose proof (Honce n) as H1. destruct (Nat.eq_dec (get n (done_nr s)) 1) as [E|E]; [|lia].
+  assert (Hz : get n (dones s) = 0).
+  { pose proof (Honce n) as H1. destruct (Nat.eq_dec (get n (dones s)) 1) as [E|E]; [|lia].
     exfalso. exact (Hcached n E Hc). }
-  constructor; cbn [begin_run cache compiled loaded arrays next_arr next_mod trace starts done_nr done_r fail_nr fail_r results completed]; auto.
+  constructor; cbn [begin_run cache compiled loaded arrays next_arr next_mod trace starts dones fails cycles results completed]; auto.
   - intros m. destruct (name_dec n m) as [<-|N].
     + rewrite get_bump_same, cnt_cons_same, Hacct. lia.
     + rewrite get_bump_other, cnt_cons_other by assumption. apply Hacct.
@@ -169,66 +168,58 @@ Proof.
     + rewrite get_bump_other by assumption. rewrite name_eqb_neq by congruence. apply Htrs.
 Qed.
 
-Lemma finish_fail_inv l n re s : Inv (n :: l) s -> re = mem n l -> Inv l (finish_fail n re s).
+Lemma finish_fail_inv l n s : Inv (n :: l) s -> Inv l (finish_fail n s).
 Proof.
-  intros [Hacct Honce Hcached Hinprog Hres0 Hres1 Hlinj Hlrange Hnext Hcarr Htrs Htrd] ->.
-  constructor; cbn [finish_fail cache compiled loaded arrays next_arr next_mod trace starts done_nr done_r fail_nr fail_r results completed]; auto.
+  intros [Hacct Honce Hcached Hinprog Hres0 Hres1 Hlinj Hlrange Hnext Hcarr Htrs Htrd].
+  constructor; cbn [finish_fail cache compiled loaded arrays next_arr next_mod trace starts dones fails cycles results completed]; auto.
   - intros m. specialize (Hacct m). destruct (name_dec n m) as [<-|N].
-    + rewrite cnt_cons_same in Hacct. destruct (mem n l); rewrite get_bump_same; lia.
-    + rewrite cnt_cons_other in Hacct by assumption. destruct (mem n l); rewrite get_bump_other by assumption; lia.
+    + rewrite cnt_cons_same in Hacct. rewrite get_bump_same. lia.
+    + rewrite cnt_cons_other in Hacct by assumption. rewrite get_bump_other by assumption. lia.
   - intros m Hin. apply Hinprog. right. exact Hin.
 Qed.
 
-Lemma finish_ok_inv l n id arr re d s :
-  Inv (n :: l) s -> re = mem n l -> lookup n (loaded s) = Some arr -> Inv l (finish_ok n id arr re d s).
+Lemma finish_ok_inv l n id arr d s :
+  Inv (n :: l) s -> ~ In n l -> lookup n (loaded s) = Some arr -> Inv l (finish_ok n id arr d s).
 Proof.
-  intros [Hacct Honce Hcached Hinprog Hres0 Hres1 Hlinj Hlrange Hnext Hcarr Htrs Htrd] -> Harr.
-  assert (Hz : get n (done_nr s) = 0) by (apply Hinprog; left; reflexivity).
+  intros [Hacct Honce Hcached Hinprog Hres0 Hres1 Hlinj Hlrange Hnext Hcarr Htrs Htrd] Hnl Harr.
+  assert (Hz : get n (dones s) = 0) by (apply Hinprog; left; reflexivity).
   unfold completed in *.
   constructor; unfold completed;
-    cbn [finish_ok cache compiled loaded arrays next_arr next_mod trace starts done_nr done_r fail_nr fail_r results]; auto.
+    cbn [finish_ok cache compiled loaded arrays next_arr next_mod trace starts dones fails cycles results]; auto.
   - (* accounting *)
     intros m. specialize (Hacct m). destruct (name_dec n m) as [<-|N].
-    + rewrite cnt_cons_same in Hacct. destruct (mem n l); rewrite get_bump_same; lia.
-    + rewrite cnt_cons_other in Hacct by assumption. destruct (mem n l); rewrite ?get_bump_other by assumption; lia.
-  - (* at most one non-re-entrant completion *)
-    intros m. destruct (mem n l) eqn:Em; [apply Honce|].
-    destruct (name_dec n m) as [<-|N]; [rewrite get_bump_same; lia|rewrite get_bump_other by assumption; apply Honce].
+    + rewrite cnt_cons_same in Hacct. rewrite get_bump_same. lia.
+    + rewrite cnt_cons_other in Hacct by assumption. rewrite get_bump_other by assumption. lia.
+  - (* at most one completion *)
+    intros m. destruct (name_dec n m) as [<-|N]; [rewrite get_bump_same; lia|rewrite get_bump_other by assumption; apply Honce].
   - (* completed => cached *)
     intros m Hm. destruct (name_dec n m) as [<-|N].
     + rewrite lookup_update_same. discriminate.
-    + rewrite lookup_update_other by assumption. apply Hcached.
-      destruct (mem n l); [exact Hm|rewrite get_bump_other in Hm by assumption; exact Hm].
-  - (* bodies in progress have not completed non-re-entrantly *)
-    intros m Hin. destruct (mem n l) eqn:Em; [apply Hinprog; right; exact Hin|].
-    destruct (name_dec n m) as [<-|N].
-    + apply mem_false in Em. contradiction.
-    + rewrite get_bump_other by assumption. apply Hinprog. right. exact Hin.
+    + rewrite lookup_update_other by assumption. apply Hcached. rewrite get_bump_other in Hm by assumption. exact Hm.
+  - (* bodies in progress have not completed *)
+    intros m Hin. destruct (name_dec n m) as [<-|N]; [contradiction|].
+    rewrite get_bump_other by assumption. apply Hinprog. right. exact Hin.
   - (* no completion => not cached, no result *)
     intros m Hm. destruct (name_dec n m) as [<-|N].
-    + exfalso. destruct (mem n l); rewrite get_bump_same in Hm; lia.
-    + assert (Hm' : get m (done_nr s) + get m (done_r s) = 0)
-        by (destruct (mem n l); rewrite get_bump_other in Hm by assumption; exact Hm).
-      destruct (Hres0 m Hm') as (Hnone & Hno). rewrite lookup_update_other by assumption.
+    + exfalso. rewrite get_bump_same in Hm. lia.
+    + rewrite get_bump_other in Hm by assumption.
+      destruct (Hres0 m Hm) as (Hnone & Hno). rewrite lookup_update_other by assumption.
       split; [exact Hnone|]. intros id' [E|Hin]; [congruence|exact (Hno id' Hin)].
-  - (* one completion => every result is the cached object *)
+  - (* every result is the cached object *)
     intros m id' Hin Hle. destruct (name_dec n m) as [<-|N].
     + rewrite lookup_update_same. destruct Hin as [E|Hin]; [injection E as <-; exists arr; reflexivity|].
-      exfalso.
-      assert (H0 : get n (done_nr s) + get n (done_r s) = 0)
-        by (destruct (mem n l); rewrite get_bump_same in Hle; lia).
-      destruct (Hres0 n H0) as (_ & Hno). exact (Hno id' Hin).
+      exfalso. destruct (Hres0 n Hz) as (_ & Hno). exact (Hno id' Hin).
     + rewrite lookup_update_other by assumption.
       destruct Hin as [E|Hin]; [congruence|]. apply Hres1; [exact Hin|].
-      destruct (mem n l); rewrite get_bump_other in Hle by assumption; exact Hle.
+      rewrite get_bump_other in Hle by assumption. exact Hle.
   - (* cached objects use the loaded array of their module *)
     intros m id' a Hc. destruct (name_dec n m) as [<-|N].
     + rewrite lookup_update_same in Hc. injection Hc as <- <-. exact Harr.
     + rewrite lookup_update_other in Hc by assumption. eapply Hcarr; eassumption.
   - (* trace *)
     intros m. cbn [tr_dones]. specialize (Htrd m). destruct (name_dec n m) as [<-|N].
-    + rewrite name_eqb_refl. destruct (mem n l); rewrite get_bump_same; lia.
-    + rewrite name_eqb_neq by congruence. destruct (mem n l); rewrite get_bump_other by assumption; lia.
+    + rewrite name_eqb_refl. rewrite get_bump_same. lia.
+    + rewrite name_eqb_neq by congruence. rewrite get_bump_other by assumption. lia.
 Qed.
 
 (* ---------- evaluation preserves the invariant ---------- *)
@@ -247,6 +238,9 @@ Section Run.
     intros Hrun c n s r s' H E. unfold import_with in E.
     destruct (lookup n (cache s)) as [[id a]|] eqn:Ec.
     { injection E as <- <-. split; [eapply add_result_inv; eassumption|intros m b Hm; exact Hm]. }
+    destruct (mem n (c_inprog c)) eqn:Ecy.
+    { injection E as <- <-. split; [apply note_cycle_inv; exact H|intros m b Hm; exact Hm]. }
+    apply mem_false in Ecy.
     destruct (find_source T exts n) as [[e [|body]]|].
     2:{ (* found and compiled *)
       set (s1 := note_compiled n (log (EvReq n (RFound e (negb (mem n (compiled s))))) s)) in *.
@@ -264,7 +258,7 @@ Section Run.
       destruct (Nat.leb (pred max_frame) (c_depth c)).
       { injection E as <- <-. split; [exact H2|exact (ext_trans _ _ _ X1 X2)]. }
       set (d := S (length (c_inprog c))) in *.
-      set (s3 := begin_run n (mem n (c_inprog c)) d s2) in *.
+      set (s3 := begin_run n d s2) in *.
       assert (H3 : Inv (n :: c_inprog c) s3) by (apply begin_run_inv; assumption).
       match type of E with context [run ?cc None body s3] => set (c' := cc) in * end.
       destruct (run c' None body s3) as [[o loc4] s4] eqn:Er.
@@ -274,41 +268,39 @@ Section Run.
       assert (X : ext s s4) by (eapply ext_trans; [exact X1|]; eapply ext_trans; [exact X2|]; eapply ext_trans; eassumption).
       cbn [c_inprog c'] in H4.
       destruct o; injection E as <- <-.
-      - split; [eapply finish_ok_inv; [exact H4|reflexivity|exact L4]|intros m b Hm; apply X; exact Hm].
-      - split; [eapply finish_fail_inv; [exact H4|reflexivity]|intros m b Hm; apply X; exact Hm].
-      - split; [eapply finish_fail_inv; [exact H4|reflexivity]|intros m b Hm; apply X; exact Hm].
-      - split; [eapply finish_fail_inv; [exact H4|reflexivity]|intros m b Hm; apply X; exact Hm]. }
+      - split; [eapply finish_ok_inv; [exact H4|exact Ecy|exact L4]|intros m b Hm; apply X; exact Hm].
+      - split; [eapply finish_fail_inv; exact H4|intros m b Hm; apply X; exact Hm].
+      - split; [eapply finish_fail_inv; exact H4|intros m b Hm; apply X; exact Hm].
+      - split; [eapply finish_fail_inv; exact H4|intros m b Hm; apply X; exact Hm]. }
     - injection E as <- <-. split; [apply log_req_inv; exact H|intros m b Hm; exact Hm].
     - injection E as <- <-. split; [apply log_req_inv; exact H|intros m b Hm; exact Hm].
   Qed.
 
-  Lemma from_one_ok run : run_ok run -> forall c ps multi nm s r s',
-    Inv (c_inprog c) s -> from_one run T exts c ps multi nm s = (r, s') -> Inv (c_inprog c) s' /\ ext s s'.
+  Lemma from_one_ok run : run_ok run -> forall c ps nm s r s',
+    Inv (c_inprog c) s -> from_one run T exts c ps nm s = (r, s') -> Inv (c_inprog c) s' /\ ext s s'.
   Proof.
-    intros Hrun c ps multi nm s r s' H E. unfold from_one in E.
+    intros Hrun c ps nm s r s' H E. unfold from_one in E.
     destruct (import_with run T exts c (from_name ps nm) s) as [r1 s1] eqn:E1.
     destruct (import_with_ok run Hrun c _ s r1 s1 H E1) as (H1 & X1).
-    destruct r1 as [id a ran|e ran1| |]; try (injection E as <- <-; split; assumption).
-    set (s1' := if ran1 && multi then set_fuzzy s1 else s1) in *.
-    assert (H1' : Inv (c_inprog c) s1') by (unfold s1'; destruct (ran1 && multi); [apply set_fuzzy_inv|]; exact H1).
-    assert (X1' : ext s s1') by (unfold s1'; destruct (ran1 && multi); exact X1).
-    destruct (import_with run T exts c (from_parent ps) s1') as [r2 s2] eqn:E2.
-    destruct (import_with_ok run Hrun c _ s1' r2 s2 H1' E2) as (H2 & X2).
+    destruct r1 as [id a|e| |]; try (injection E as <- <-; split; assumption).
+    destruct (import_with run T exts c (from_parent ps) s1) as [r2 s2] eqn:E2.
+    destruct (import_with_ok run Hrun c _ s1 r2 s2 H1 E2) as (H2 & X2).
     assert (X : ext s s2) by (eapply ext_trans; eassumption).
-    destruct r2 as [id a ran|e2 ran2| |]; try (injection E as <- <-; split; assumption).
+    destruct r2 as [id a|e2| |]; try (injection E as <- <-; split; assumption).
     destruct (walk (VMod id (from_parent ps) a) [nm] s2); injection E as <- <-; split; assumption.
   Qed.
 
-  Lemma from_all_ok run : run_ok run -> forall c ps multi names stk s vs o s',
-    Inv (c_inprog c) s -> from_all run T exts c ps multi names stk s = (vs, o, s') -> Inv (c_inprog c) s' /\ ext s s'.
+  Lemma from_all_ok run : run_ok run -> forall c ps names s vs o s',
+    Inv (c_inprog c) s -> from_all run T exts c ps names s = (vs, o, s') -> Inv (c_inprog c) s' /\ ext s s'.
   Proof.
-    intros Hrun c ps multi names. induction names as [|nm r IH]; intros stk s vs o s' H E; cbn [from_all] in E.
+    intros Hrun c ps names. induction names as [|nm r IH]; intros s vs o s' H E; cbn [from_all] in E.
     - injection E as <- <- <-. split; [exact H|apply ext_refl].
-    - destruct (from_one run T exts c ps multi nm s) as [r1 s1] eqn:E1.
-      destruct (from_one_ok run Hrun c ps multi nm s r1 s1 H E1) as (H1 & X1).
-      destruct r1 as [[pushed|e]|o1]; try (injection E as <- <- <-; split; assumption).
-      destruct (IH _ s1 vs o s' H1 E) as (H2 & X2).
-      split; [exact H2|eapply ext_trans; eassumption].
+    - destruct (from_one run T exts c ps nm s) as [r1 s1] eqn:E1.
+      destruct (from_one_ok run Hrun c ps nm s r1 s1 H E1) as (H1 & X1).
+      destruct r1 as [[v|e]|o1]; try (injection E as <- <- <-; split; assumption).
+      destruct (from_all run T exts c ps r s1) as [[vs2 o2] s2] eqn:E2.
+      destruct (IH s1 vs2 o2 s2 H1 E2) as (H2 & X2).
+      destruct vs2; injection E as <- <- <-; (split; [exact H2|eapply ext_trans; eassumption]).
   Qed.
 
   Lemma step_with_ok run : run_ok run -> forall c loc a s o loc' s',
@@ -318,16 +310,16 @@ Section Run.
     - (* import *)
       destruct (import_with run T exts c path s) as [r1 s1] eqn:E1.
       destruct (import_with_ok run Hrun c _ s r1 s1 H E1) as (H1 & X1).
-      destruct r1 as [id a ran|e ran| |]; try (injection E as <- <- <-; split; assumption).
+      destruct r1 as [id a|e| |]; try (injection E as <- <- <-; split; assumption).
       destruct (bind c loc _ (VMod id path a) s1) as [loc2 s2] eqn:Eb.
       destruct (bind_inv _ c loc _ _ s1 loc2 s2 H1 Eb) as (H2 & X2).
       injection E as <- <- <-. split; [exact H2|eapply ext_trans; eassumption].
     - (* from import *)
-      destruct (from_all run T exts c ps (Nat.ltb 1 (length (map fst imps))) (rev (map fst imps)) [] s) as [[vs o1] s1] eqn:E1.
-      destruct (from_all_ok run Hrun c ps _ _ _ s vs o1 s1 H E1) as (H1 & X1).
+      destruct (from_all run T exts c ps (rev (map fst imps)) s) as [[vs o1] s1] eqn:E1.
+      destruct (from_all_ok run Hrun c ps _ s vs o1 s1 H E1) as (H1 & X1).
       destruct vs as [vs|]; [|injection E as <- <- <-; split; assumption].
-      destruct (bind_all c loc (map (from_alias imps) (map fst imps)) vs s1) as [loc2 s2] eqn:Eb.
-      destruct (bind_all_inv _ c _ loc vs s1 loc2 s2 H1 Eb) as (H2 & X2).
+      destruct (bind_all c loc (map (from_alias imps) (map fst imps)) (rev vs) s1) as [loc2 s2] eqn:Eb.
+      destruct (bind_all_inv _ c _ loc (rev vs) s1 loc2 s2 H1 Eb) as (H2 & X2).
       injection E as <- <- <-. split; [exact H2|eapply ext_trans; eassumption].
     - injection E as <- <- <-. split; [apply note_write_inv, set_array_inv; exact H|intros m b Hm; exact Hm].
     - injection E as <- <- <-. split; [apply set_array_inv; exact H|intros m b Hm; exact Hm].
@@ -436,6 +428,7 @@ Section Reqs.
     intros Hrun c n s r s' Hn H E. unfold import_with in E.
     destruct (lookup n (cache s)) as [[id a]|].
     { injection E as <- <-. exact H. }
+    destruct (mem n (c_inprog c)); [injection E as <- <-; exact H|].
     destruct (find_source T exts n) as [[e [|body]]|] eqn:Ef.
     - injection E as <- <-. intros m r0 [X|Hin]; [injection X as <- <-; exact Hn|exact (H m r0 Hin)].
     - assert (Hb : forallb action_accepted body = true).
@@ -461,33 +454,33 @@ Section Reqs.
     - injection E as <- <-. intros m r0 [X|Hin]; [injection X as <- <-; exact Hn|exact (H m r0 Hin)].
   Qed.
 
-  Lemma from_one_reqs run : run_ok2 run -> forall c ps multi nm s r s',
+  Lemma from_one_reqs run : run_ok2 run -> forall c ps nm s r s',
     ps <> [] -> Forall name_ok ps -> name_ok nm ->
-    reqs_ok s -> from_one run T exts c ps multi nm s = (r, s') -> reqs_ok s'.
+    reqs_ok s -> from_one run T exts c ps nm s = (r, s') -> reqs_ok s'.
   Proof.
-    intros Hrun c ps multi nm s r s' NE Hps Hnm H E. unfold from_one in E.
+    intros Hrun c ps nm s r s' NE Hps Hnm H E. unfold from_one in E.
     destruct (import_with run T exts c (from_name ps nm) s) as [r1 s1] eqn:E1.
     pose proof (import_with_reqs run Hrun c _ s r1 s1 (from_name_ok ps nm NE Hps Hnm) H E1) as H1.
-    destruct r1 as [id a ran|e ran1| |]; try (injection E as <- <-; exact H1).
-    set (s1' := if ran1 && multi then set_fuzzy s1 else s1) in *.
-    assert (H1' : reqs_ok s1') by (unfold s1'; destruct (ran1 && multi); exact H1).
-    destruct (import_with run T exts c (from_parent ps) s1') as [r2 s2] eqn:E2.
-    pose proof (import_with_reqs run Hrun c _ s1' r2 s2 (from_parent_ok ps NE Hps) H1' E2) as H2.
-    destruct r2 as [id a ran|e2 ran2| |]; try (injection E as <- <-; exact H2).
+    destruct r1 as [id a|e| |]; try (injection E as <- <-; exact H1).
+    destruct (import_with run T exts c (from_parent ps) s1) as [r2 s2] eqn:E2.
+    pose proof (import_with_reqs run Hrun c _ s1 r2 s2 (from_parent_ok ps NE Hps) H1 E2) as H2.
+    destruct r2 as [id a|e2| |]; try (injection E as <- <-; exact H2).
     destruct (walk (VMod id (from_parent ps) a) [nm] s2); injection E as <- <-; exact H2.
   Qed.
 
-  Lemma from_all_reqs run : run_ok2 run -> forall c ps multi names stk s vs o s',
+  Lemma from_all_reqs run : run_ok2 run -> forall c ps names s vs o s',
     ps <> [] -> Forall name_ok ps -> Forall name_ok names ->
-    reqs_ok s -> from_all run T exts c ps multi names stk s = (vs, o, s') -> reqs_ok s'.
+    reqs_ok s -> from_all run T exts c ps names s = (vs, o, s') -> reqs_ok s'.
   Proof.
-    intros Hrun c ps multi names. induction names as [|nm r IH]; intros stk s vs o s' NE Hps Hn H E; cbn [from_all] in E.
+    intros Hrun c ps names. induction names as [|nm r IH]; intros s vs o s' NE Hps Hn H E; cbn [from_all] in E.
     - injection E as <- <- <-. exact H.
     - inversion Hn as [|? ? Hnm Hr]; subst.
-      destruct (from_one run T exts c ps multi nm s) as [r1 s1] eqn:E1.
-      pose proof (from_one_reqs run Hrun c ps multi nm s r1 s1 NE Hps Hnm H E1) as H1.
-      destruct r1 as [[pushed|e]|o1]; try (injection E as <- <- <-; exact H1).
-      exact (IH _ s1 vs o s' NE Hps Hr H1 E).
+      destruct (from_one run T exts c ps nm s) as [r1 s1] eqn:E1.
+      pose proof (from_one_reqs run Hrun c ps nm s r1 s1 NE Hps Hnm H E1) as H1.
+      destruct r1 as [[v|e]|o1]; try (injection E as <- <- <-; exact H1).
+      destruct (from_all run T exts c ps r s1) as [[vs2 o2] s2] eqn:E2.
+      pose proof (IH s1 vs2 o2 s2 NE Hps Hr H1 E2) as H2.
+      destruct vs2; injection E as <- <- <-; exact H2.
   Qed.
 
   Lemma step_with_reqs run : run_ok2 run -> forall c loc a s o loc' s',
@@ -497,16 +490,16 @@ Section Reqs.
     destruct a as [path alias|ps imps|x v|dx|p x v|e| |body|k body]; cbn [step_with] in E.
     - destruct (import_with run T exts c path s) as [r1 s1] eqn:E1.
       pose proof (import_with_reqs run Hrun c _ s r1 s1 (valid_path_name_ok path Ha) H E1) as H1.
-      destruct r1 as [id a ran|e ran| |]; try (injection E as <- <- <-; exact H1).
+      destruct r1 as [id a|e| |]; try (injection E as <- <- <-; exact H1).
       destruct (bind c loc _ (VMod id path a) s1) as [loc2 s2] eqn:Eb.
       injection E as <- <- <-. eapply reqs_ok_same; [eapply bind_trace; eassumption|exact H1].
     - destruct (from_accepted ps imps Ha) as (NE & Hps & Hi).
-      destruct (from_all run T exts c ps (Nat.ltb 1 (length (map fst imps))) (rev (map fst imps)) [] s) as [[vs o1] s1] eqn:E1.
+      destruct (from_all run T exts c ps (rev (map fst imps)) s) as [[vs o1] s1] eqn:E1.
       assert (Hn : Forall name_ok (rev (map fst imps))).
       { apply Forall_rev. apply Forall_map. exact Hi. }
-      pose proof (from_all_reqs run Hrun c ps _ _ _ s vs o1 s1 NE Hps Hn H E1) as H1.
+      pose proof (from_all_reqs run Hrun c ps _ s vs o1 s1 NE Hps Hn H E1) as H1.
       destruct vs as [vs|]; [|injection E as <- <- <-; exact H1].
-      destruct (bind_all c loc (map (from_alias imps) (map fst imps)) vs s1) as [loc2 s2] eqn:Eb.
+      destruct (bind_all c loc (map (from_alias imps) (map fst imps)) (rev vs) s1) as [loc2 s2] eqn:Eb.
       injection E as <- <- <-. eapply reqs_ok_same; [eapply bind_all_trace; eassumption|exact H1].
     - injection E as <- <- <-. exact H.
     - injection E as <- <- <-. exact H.
@@ -551,16 +544,16 @@ Section Reqs.
   Qed.
 End Reqs.
 
-(* ---------- an acyclic module graph is never re-entered ---------- *)
+(* ---------- in an acyclic module graph no import is ever rejected as a cycle ---------- *)
 
 Definition noreent (s s' : st) : Prop :=
-  forall n, get n (done_r s') = get n (done_r s) /\ get n (fail_r s') = get n (fail_r s).
+  forall n, get n (cycles s') = get n (cycles s).
 Lemma noreent_refl s : noreent s s.
-Proof. intros n. split; reflexivity. Qed.
+Proof. intros n. reflexivity. Qed.
 Lemma noreent_trans a b c : noreent a b -> noreent b c -> noreent a c.
-Proof. intros H1 H2 n. destruct (H1 n), (H2 n). split; congruence. Qed.
-Lemma noreent_same s s' : done_r s' = done_r s -> fail_r s' = fail_r s -> noreent s s'.
-Proof. intros E1 E2 n. rewrite E1, E2. split; reflexivity. Qed.
+Proof. intros H1 H2 n. rewrite (H2 n). apply H1. Qed.
+Lemma noreent_same s s' : cycles s' = cycles s -> noreent s s'.
+Proof. intros E1 n. rewrite E1. reflexivity. Qed.
 
 Ltac nr := first [apply noreent_refl | apply noreent_same; reflexivity].
 
@@ -593,14 +586,14 @@ Section Ranked.
     intros Hrun c n s r s' Hn E. unfold import_with in E.
     destruct (lookup n (cache s)) as [[id a]|].
     { injection E as <- <-. nr. }
+    assert (Hre : mem n (c_inprog c) = false).
+    { apply mem_false. intros Hin. specialize (Hn n Hin). lia. }
+    rewrite Hre in E.
     destruct (find_source T exts n) as [[e [|body]]|] eqn:Ef.
     - injection E as <- <-. nr.
     - assert (Hb : ranked_below rank (rank n) body = true).
       { apply find_source_in in Ef. unfold tree_ranked in HT. rewrite forallb_forall in HT.
         exact (HT _ Ef). }
-      assert (Hre : mem n (c_inprog c) = false).
-      { apply mem_false. intros Hin. specialize (Hn n Hin). lia. }
-      rewrite Hre in E.
       match type of E with context [note_compiled n ?x] => set (s1 := note_compiled n x) in * end.
       match type of E with context [match lookup n (loaded s1) with Some _ => s1 | None => load_fresh n s1 end] =>
         set (s2 := match lookup n (loaded s1) with Some _ => s1 | None => load_fresh n s1 end) in * end.
@@ -620,39 +613,38 @@ Section Ranked.
     - injection E as <- <-. nr.
   Qed.
 
-  Lemma from_one_noreent run : run_ok3 run -> forall c ps multi nm s r s',
+  Lemma from_one_noreent run : run_ok3 run -> forall c ps nm s r s',
     below c [from_name ps nm; from_parent ps] ->
-    from_one run T exts c ps multi nm s = (r, s') -> noreent s s'.
+    from_one run T exts c ps nm s = (r, s') -> noreent s s'.
   Proof.
-    intros Hrun c ps multi nm s r s' Hb E. unfold from_one in E.
+    intros Hrun c ps nm s r s' Hb E. unfold from_one in E.
     destruct (import_with run T exts c (from_name ps nm) s) as [r1 s1] eqn:E1.
     assert (N1 : noreent s s1).
     { eapply import_with_noreent; [exact Hrun| |exact E1]. intros m Hm. apply (Hb (from_name ps nm)); [left; reflexivity|exact Hm]. }
-    destruct r1 as [id a ran|e ran1| |]; try (injection E as <- <-; exact N1).
-    set (s1' := if ran1 && multi then set_fuzzy s1 else s1) in *.
-    assert (N1' : noreent s s1') by (unfold s1'; destruct (ran1 && multi); exact N1).
-    destruct (import_with run T exts c (from_parent ps) s1') as [r2 s2] eqn:E2.
-    assert (N2 : noreent s1' s2).
+    destruct r1 as [id a|e| |]; try (injection E as <- <-; exact N1).
+    destruct (import_with run T exts c (from_parent ps) s1) as [r2 s2] eqn:E2.
+    assert (N2 : noreent s1 s2).
     { eapply import_with_noreent; [exact Hrun| |exact E2]. intros m Hm. apply (Hb (from_parent ps)); [right; left; reflexivity|exact Hm]. }
-    pose proof (noreent_trans _ _ _ N1' N2) as N.
-    destruct r2 as [id a ran|e2 ran2| |]; try (injection E as <- <-; exact N).
+    pose proof (noreent_trans _ _ _ N1 N2) as N.
+    destruct r2 as [id a|e2| |]; try (injection E as <- <-; exact N).
     destruct (walk (VMod id (from_parent ps) a) [nm] s2); injection E as <- <-; exact N.
   Qed.
 
-  Lemma from_all_noreent run : run_ok3 run -> forall c ps multi names stk s vs o s',
+  Lemma from_all_noreent run : run_ok3 run -> forall c ps names s vs o s',
     below c (from_parent ps :: map (from_name ps) names) ->
-    from_all run T exts c ps multi names stk s = (vs, o, s') -> noreent s s'.
+    from_all run T exts c ps names s = (vs, o, s') -> noreent s s'.
   Proof.
-    intros Hrun c ps multi names. induction names as [|nm r IH]; intros stk s vs o s' Hb E; cbn [from_all] in E.
+    intros Hrun c ps names. induction names as [|nm r IH]; intros s vs o s' Hb E; cbn [from_all] in E.
     - injection E as <- <- <-. nr.
-    - destruct (from_one run T exts c ps multi nm s) as [r1 s1] eqn:E1.
+    - destruct (from_one run T exts c ps nm s) as [r1 s1] eqn:E1.
       assert (N1 : noreent s s1).
       { eapply from_one_noreent; [exact Hrun| |exact E1].
         intros n' [<-|[<-|[]]] m Hm; apply (Hb _); [right; left; reflexivity|exact Hm|left; reflexivity|exact Hm]. }
-      destruct r1 as [[pushed|e]|o1]; try (injection E as <- <- <-; exact N1).
-      assert (N2 : noreent s1 s').
-      { eapply IH; [|exact E]. intros n' [<-|Hin] m Hm; apply (Hb _); [left; reflexivity|exact Hm|right; right; exact Hin|exact Hm]. }
-      eapply noreent_trans; eassumption.
+      destruct r1 as [[v|e]|o1]; try (injection E as <- <- <-; exact N1).
+      destruct (from_all run T exts c ps r s1) as [[vs2 o2] s2] eqn:E2.
+      assert (N2 : noreent s1 s2).
+      { eapply IH; [|exact E2]. intros n' [<-|Hin] m Hm; apply (Hb _); [left; reflexivity|exact Hm|right; right; exact Hin|exact Hm]. }
+      destruct vs2; injection E as <- <- <-; eapply noreent_trans; eassumption.
   Qed.
 
   Lemma step_with_noreent run : run_ok3 run -> forall c loc a s o loc' s',
@@ -663,10 +655,10 @@ Section Ranked.
     - destruct (import_with run T exts c path s) as [r1 s1] eqn:E1.
       assert (N1 : noreent s s1).
       { eapply import_with_noreent; [exact Hrun| |exact E1]. intros m Hm. apply (Hb path); [left; reflexivity|exact Hm]. }
-      destruct r1 as [id a ran|e ran| |]; try (injection E as <- <- <-; exact N1).
+      destruct r1 as [id a|e| |]; try (injection E as <- <- <-; exact N1).
       destruct (bind c loc _ (VMod id path a) s1) as [loc2 s2] eqn:Eb.
       injection E as <- <- <-. eapply noreent_trans; [exact N1|eapply bind_noreent; eassumption].
-    - destruct (from_all run T exts c ps (Nat.ltb 1 (length (map fst imps))) (rev (map fst imps)) [] s) as [[vs o1] s1] eqn:E1.
+    - destruct (from_all run T exts c ps (rev (map fst imps)) s) as [[vs o1] s1] eqn:E1.
       assert (N1 : noreent s s1).
       { eapply from_all_noreent; [exact Hrun| |exact E1].
         intros n' Hin m Hm. apply (Hb n'); [|exact Hm]. cbn [action_requests].
@@ -674,7 +666,7 @@ Section Ranked.
         rewrite <- map_rev in Hin. rewrite map_map in Hin. apply in_map_iff in Hin. destruct Hin as (i & <- & Hi).
         apply in_map_iff. exists i. split; [reflexivity|]. apply in_rev. exact Hi. }
       destruct vs as [vs|]; [|injection E as <- <- <-; exact N1].
-      destruct (bind_all c loc (map (from_alias imps) (map fst imps)) vs s1) as [loc2 s2] eqn:Eb.
+      destruct (bind_all c loc (map (from_alias imps) (map fst imps)) (rev vs) s1) as [loc2 s2] eqn:Eb.
       injection E as <- <- <-. eapply noreent_trans; [exact N1|eapply bind_all_noreent; eassumption].
     - injection E as <- <- <-. nr.
     - injection E as <- <- <-. nr.
@@ -710,7 +702,7 @@ Section Ranked.
   Qed.
 
   Theorem run_main_noreent fuel main o s :
-    run_main fuel T exts main = (o, s) -> forall n, get n (done_r s) = 0 /\ get n (fail_r s) = 0.
+    run_main fuel T exts main = (o, s) -> forall n, get n (cycles s) = 0.
   Proof.
     unfold run_main. destruct (exec fuel T exts main_ctx None main init) as [[o1 loc1] s1] eqn:E.
     intros X. injection X as <- <-. intros n.
@@ -758,6 +750,7 @@ Section Writes.
     intros Hrun Hrun4 c n s r s' H W E. unfold import_with in E.
     destruct (lookup n (cache s)) as [[id a]|] eqn:Ec.
     { injection E as <- <-. exact W. }
+    destruct (mem n (c_inprog c)); [injection E as <- <-; exact W|].
     destruct (find_source T exts n) as [[e [|body]]|].
     2:{ set (s1 := note_compiled n (log (EvReq n (RFound e (negb (mem n (compiled s))))) s)) in *.
       assert (H1 : Inv (c_inprog c) s1) by (apply note_compiled_inv, log_req_inv; exact H).
@@ -774,7 +767,7 @@ Section Writes.
       destruct H2 as (H2 & W2 & C2 & arr & L2). rewrite L2 in E.
       destruct (Nat.leb (pred max_frame) (c_depth c)); [injection E as <- <-; exact W2|].
       set (d := S (length (c_inprog c))) in *.
-      set (s3 := begin_run n (mem n (c_inprog c)) d s2) in *.
+      set (s3 := begin_run n d s2) in *.
       assert (H3 : Inv (n :: c_inprog c) s3) by (apply begin_run_inv; assumption).
       match type of E with context [run ?cc None body s3] => set (c' := cc) in * end.
       assert (F3 : ctx_wf c' s3) by exact L2.
@@ -786,33 +779,32 @@ Section Writes.
     - injection E as <- <-. exact W.
   Qed.
 
-  Lemma from_one_wlog run : run_ok run -> run_ok4 run -> forall c ps multi nm s r s',
-    Inv (c_inprog c) s -> wlog_ok s -> from_one run T exts c ps multi nm s = (r, s') -> wlog_ok s'.
+  Lemma from_one_wlog run : run_ok run -> run_ok4 run -> forall c ps nm s r s',
+    Inv (c_inprog c) s -> wlog_ok s -> from_one run T exts c ps nm s = (r, s') -> wlog_ok s'.
   Proof.
-    intros Hrun Hrun4 c ps multi nm s r s' H W E. unfold from_one in E.
+    intros Hrun Hrun4 c ps nm s r s' H W E. unfold from_one in E.
     destruct (import_with run T exts c (from_name ps nm) s) as [r1 s1] eqn:E1.
     destruct (import_with_ok T exts run Hrun c _ s r1 s1 H E1) as (H1 & X1).
     pose proof (import_with_wlog run Hrun Hrun4 c _ s r1 s1 H W E1) as W1.
-    destruct r1 as [id a ran|e ran1| |]; try (injection E as <- <-; exact W1).
-    set (s1' := if ran1 && multi then set_fuzzy s1 else s1) in *.
-    assert (H1' : Inv (c_inprog c) s1') by (unfold s1'; destruct (ran1 && multi); [apply set_fuzzy_inv|]; exact H1).
-    assert (W1' : wlog_ok s1') by (unfold s1'; destruct (ran1 && multi); exact W1).
-    destruct (import_with run T exts c (from_parent ps) s1') as [r2 s2] eqn:E2.
-    pose proof (import_with_wlog run Hrun Hrun4 c _ s1' r2 s2 H1' W1' E2) as W2.
-    destruct r2 as [id a ran|e2 ran2| |]; try (injection E as <- <-; exact W2).
+    destruct r1 as [id a|e| |]; try (injection E as <- <-; exact W1).
+    destruct (import_with run T exts c (from_parent ps) s1) as [r2 s2] eqn:E2.
+    pose proof (import_with_wlog run Hrun Hrun4 c _ s1 r2 s2 H1 W1 E2) as W2.
+    destruct r2 as [id a|e2| |]; try (injection E as <- <-; exact W2).
     destruct (walk (VMod id (from_parent ps) a) [nm] s2); injection E as <- <-; exact W2.
   Qed.
 
-  Lemma from_all_wlog run : run_ok run -> run_ok4 run -> forall c ps multi names stk s vs o s',
-    Inv (c_inprog c) s -> wlog_ok s -> from_all run T exts c ps multi names stk s = (vs, o, s') -> wlog_ok s'.
+  Lemma from_all_wlog run : run_ok run -> run_ok4 run -> forall c ps names s vs o s',
+    Inv (c_inprog c) s -> wlog_ok s -> from_all run T exts c ps names s = (vs, o, s') -> wlog_ok s'.
   Proof.
-    intros Hrun Hrun4 c ps multi names. induction names as [|nm r IH]; intros stk s vs o s' H W E; cbn [from_all] in E.
+    intros Hrun Hrun4 c ps names. induction names as [|nm r IH]; intros s vs o s' H W E; cbn [from_all] in E.
     - injection E as <- <- <-. exact W.
-    - destruct (from_one run T exts c ps multi nm s) as [r1 s1] eqn:E1.
-      destruct (from_one_ok T exts run Hrun c ps multi nm s r1 s1 H E1) as (H1 & X1).
-      pose proof (from_one_wlog run Hrun Hrun4 c ps multi nm s r1 s1 H W E1) as W1.
-      destruct r1 as [[pushed|e]|o1]; try (injection E as <- <- <-; exact W1).
-      exact (IH _ s1 vs o s' H1 W1 E).
+    - destruct (from_one run T exts c ps nm s) as [r1 s1] eqn:E1.
+      destruct (from_one_ok T exts run Hrun c ps nm s r1 s1 H E1) as (H1 & X1).
+      pose proof (from_one_wlog run Hrun Hrun4 c ps nm s r1 s1 H W E1) as W1.
+      destruct r1 as [[v|e]|o1]; try (injection E as <- <- <-; exact W1).
+      destruct (from_all run T exts c ps r s1) as [[vs2 o2] s2] eqn:E2.
+      pose proof (IH s1 vs2 o2 s2 H1 W1 E2) as W2.
+      destruct vs2; injection E as <- <- <-; exact W2.
   Qed.
 
   Lemma step_with_wlog run : run_ok run -> run_ok4 run -> forall c loc a s o loc' s',
@@ -822,13 +814,13 @@ Section Writes.
     destruct a as [path alias|ps imps|x v|dx|p x v|e| |body|k body]; cbn [step_with] in E.
     - destruct (import_with run T exts c path s) as [r1 s1] eqn:E1.
       pose proof (import_with_wlog run Hrun Hrun4 c _ s r1 s1 H W E1) as W1.
-      destruct r1 as [id a ran|e ran| |]; try (injection E as <- <- <-; exact W1).
+      destruct r1 as [id a|e| |]; try (injection E as <- <- <-; exact W1).
       destruct (bind c loc _ (VMod id path a) s1) as [loc2 s2] eqn:Eb.
       injection E as <- <- <-. eapply bind_wlog; eassumption.
-    - destruct (from_all run T exts c ps (Nat.ltb 1 (length (map fst imps))) (rev (map fst imps)) [] s) as [[vs o1] s1] eqn:E1.
-      pose proof (from_all_wlog run Hrun Hrun4 c ps _ _ _ s vs o1 s1 H W E1) as W1.
+    - destruct (from_all run T exts c ps (rev (map fst imps)) s) as [[vs o1] s1] eqn:E1.
+      pose proof (from_all_wlog run Hrun Hrun4 c ps _ s vs o1 s1 H W E1) as W1.
       destruct vs as [vs|]; [|injection E as <- <- <-; exact W1].
-      destruct (bind_all c loc (map (from_alias imps) (map fst imps)) vs s1) as [loc2 s2] eqn:Eb.
+      destruct (bind_all c loc (map (from_alias imps) (map fst imps)) (rev vs) s1) as [loc2 s2] eqn:Eb.
       injection E as <- <- <-. eapply bind_all_wlog; eassumption.
     - (* x = v: the write goes to the executing code's own array *)
       injection E as <- <- <-. intros a who [X|Hin]; [|exact (W a who Hin)].
@@ -875,9 +867,9 @@ End Writes.
 (* ---------- the statements used by props/C14.v ---------- *)
 
 Theorem once_accounting fuel T exts main o s n : run_main fuel T exts main = (o, s) ->
-  tr_starts n (trace s) = get n (done_nr s) + get n (done_r s) + get n (fail_nr s) + get n (fail_r s)
-  /\ tr_dones n (trace s) = get n (done_nr s) + get n (done_r s)
-  /\ get n (done_nr s) <= 1.
+  tr_starts n (trace s) = get n (dones s) + get n (fails s)
+  /\ tr_dones n (trace s) = get n (dones s)
+  /\ get n (dones s) <= 1.
 Proof.
   intros E. destruct (run_main_inv T exts fuel main o s E) as [Hacct Honce _ _ _ _ _ _ _ _ Htrs Htrd].
   split; [|split].
@@ -886,29 +878,47 @@ Proof.
   - apply Honce.
 Qed.
 
-Theorem once_acyclic fuel T exts rank main o s n :
-  tree_ranked rank T = true -> run_main fuel T exts main = (o, s) ->
-  tr_starts n (trace s) <= 1 + get n (fail_nr s) /\ tr_dones n (trace s) <= 1
-  /\ (get n (fail_nr s) = 0 -> tr_starts n (trace s) <= 1).
+(* no hypothesis on the module graph: an import cycle is an error, so a body is never re-entered *)
+Theorem once fuel T exts main o s n : run_main fuel T exts main = (o, s) ->
+  tr_starts n (trace s) <= 1 + get n (fails s) /\ tr_dones n (trace s) <= 1
+  /\ (get n (fails s) = 0 -> tr_starts n (trace s) <= 1).
 Proof.
-  intros HT E. destruct (once_accounting fuel T exts main o s n E) as (H1 & H2 & H3).
-  destruct (run_main_noreent T exts rank HT fuel main o s E n) as (R1 & R2). lia.
+  intros E. destruct (once_accounting fuel T exts main o s n E) as (H1 & H2 & H3). lia.
 Qed.
 
 Theorem same_object fuel T exts main o s n id1 id2 : run_main fuel T exts main = (o, s) ->
-  tr_dones n (trace s) <= 1 -> In (n, id1) (results s) -> In (n, id2) (results s) -> id1 = id2.
-Proof.
-  intros E Hle H1 H2. destruct (run_main_inv T exts fuel main o s E) as [_ _ _ _ _ Hres1 _ _ _ _ _ Htrd].
-  rewrite <- Htrd in Hle.
-  destruct (Hres1 n id1 H1 Hle) as (a1 & E1). destruct (Hres1 n id2 H2 Hle) as (a2 & E2). congruence.
-Qed.
-
-Theorem same_object_acyclic fuel T exts rank main o s n id1 id2 :
-  tree_ranked rank T = true -> run_main fuel T exts main = (o, s) ->
   In (n, id1) (results s) -> In (n, id2) (results s) -> id1 = id2.
 Proof.
-  intros HT E. apply (same_object fuel T exts main o s n id1 id2 E).
-  destruct (once_acyclic fuel T exts rank main o s n HT E) as (_ & H & _). exact H.
+  intros E H1 H2. destruct (run_main_inv T exts fuel main o s E) as [_ Honce _ _ _ Hres1 _ _ _ _ _ _].
+  destruct (Hres1 n id1 H1 (Honce n)) as (a1 & E1). destruct (Hres1 n id2 H2 (Honce n)) as (a2 & E2). congruence.
+Qed.
+
+(* a successful importModule(n) returns the object that is cached under n *)
+Lemma import_with_cached run T exts c n s id a s' :
+  import_with run T exts c n s = (IOk id a, s') -> lookup n (cache s') = Some (id, a).
+Proof.
+  unfold import_with. destruct (lookup n (cache s)) as [[id0 a0]|] eqn:Ec.
+  - intros E. injection E as <- <- <-. exact Ec.
+  - destruct (mem n (c_inprog c)); [discriminate|].
+    destruct (find_source T exts n) as [[e [|body]]|]; try discriminate.
+    destruct (Nat.leb (pred max_frame) (c_depth c)); [discriminate|].
+    match goal with |- context [run ?cc None body ?s3] => destruct (run cc None body s3) as [[o loc4] s4] end.
+    destruct o; try discriminate. intros E. injection E as <- <- <-. cbn. rewrite name_eqb_refl. reflexivity.
+Qed.
+
+(* what a from-import binds for a name: the module parents/name as cached, or the attribute `name` of the cached
+   parent module - nothing else *)
+Theorem from_one_value run T exts c ps nm s v s' :
+  from_one run T exts c ps nm s = (inl (ROk v), s') ->
+  (exists id a, v = VMod id (from_name ps nm) a /\ lookup (from_name ps nm) (cache s') = Some (id, a))
+  \/ (exists id a, lookup (from_parent ps) (cache s') = Some (id, a) /\
+                   walk (VMod id (from_parent ps) a) [nm] s' = ROk v).
+Proof.
+  unfold from_one. destruct (import_with run T exts c (from_name ps nm) s) as [[id a|e| |] s1] eqn:E1; try discriminate.
+  - intros E. injection E as <- <-. left. exists id, a. split; [reflexivity|]. eapply import_with_cached; exact E1.
+  - destruct (import_with run T exts c (from_parent ps) s1) as [[id a|e2| |] s2] eqn:E2; try discriminate.
+    destruct (walk (VMod id (from_parent ps) a) [nm] s2) as [v0|] eqn:Ew; try discriminate.
+    intros E. injection E as <- <-. right. exists id, a. split; [eapply import_with_cached; exact E2|exact Ew].
 Qed.
 
 Theorem globals_distinct fuel T exts main o s : run_main fuel T exts main = (o, s) ->
